@@ -135,8 +135,23 @@ class _NPProxy:
         return dmg
 
 
-class _Stub:
+def _process_base():
+    """moptipy's Process class (log_h() insists on a Process instance)."""
+    try:
+        from moptipy.api.process import Process
+        return Process
+    except Exception:  # noqa
+        return object
+
+
+class _Stub(_process_base()):
     """Scripted random source + process in one object."""
+
+    def has_log(self):
+        return True
+
+    def add_log_section(self, title, text):
+        self.sections.append((title, text))
 
     def __init__(self, n, f, lens, ub, algo):
         self.n = n
@@ -170,6 +185,7 @@ class _Stub:
         self.terminated = False
         self.shuffles = 0
         self.best = None     # (x, y) the process holds as best so far
+        self.sections = []
 
     # random source
     def shuffle(self, x):
@@ -349,7 +365,9 @@ class SolveRunner:
         else:
             import moptipyapps.tsp.fea1p1_revn as fm
             from moptipyapps.tsp.fea1p1_revn import TSPFEA1p1revn
-            self.alg = TSPFEA1p1revn(self.inst)
+            # "fea_h": the variant that logs its frequency table at the end
+            self.alg = TSPFEA1p1revn(self.inst, True) if algo == "fea_h" \
+                else TSPFEA1p1revn(self.inst)
             self.fm = fm
             self.proxy = _NPProxy()
             self.proxy.pad = min(1 << 12,
@@ -553,7 +571,7 @@ def _solve(ctx, fam, depth, lo=0, hi=None, algos=ALGOS, short=False,
     ctx.log(f"{name}: instances={insts} runs={runs} handovers={regs} "
             f"model-agreement={agree} guarded tables={tables}")
     _odd_caps(ctx, name, [sum(r[7][b] for r in out) for b in range(4)])
-    if "fea" in algos and runs and not tables:
+    if any(a.startswith("fea") for a in algos) and runs and not tables:
         ctx.cap("the FEA no longer allocates its table through np.zeros: "
                 "the guard buffer could not be installed in solve()")
     seen = set()
@@ -1305,6 +1323,10 @@ def run(ctx: Ctx) -> None:
     # a process that already holds a shortest tour when solve() starts
     # (the algorithm used as a later stage of a hybrid)
     r, a = _solve(ctx, f4b, 2, 0, None, ALGOS, False, True)
+    tot_runs += r
+    tot_agree += a
+    # the FEA variant that logs its frequency table (do_log_h=True)
+    r, a = _solve(ctx, f4b, 2, 0, None, ("fea_h",), False)
     tot_runs += r
     tot_agree += a
     # FEA on tours whose length bound is 2^27 and more (frequency table of
